@@ -71,30 +71,19 @@ async function dynamic ({ leaf, resp, a, v, code, ctx }) {
 
 module.exports = mk({
   id: 'C03',
-  families: ['A', 'C', 'B', 'M', 'S'],
+  families: ['A', 'C', 'B', 'M', 'S', 'P'],
   // real library files: the same static oracle on syntax nobody wrote an expectation for
   corpus: { configs: ['FULL', 'RENAMED'], quickLimit: 60 },
   familyOpts: (tier) => ({ B: { k: tier === 'thorough' ? 2 : 1 } }),
-  // operations whose operands are `+` expressions, under configurations with the plus operator disabled
-  // (the operand is then NOT turned into a hook call by the child-first traversal)
-  extra: async (tier) => {
-    const G = require('../grammar/space')
-    const F = require('../grammar/families')
-    const { enumerate } = require('../lib/explore')
-    const atoms = ['a + b', "a + 'x'", 'f() + b', "'l' + 'm'", 'a']
-    const leaves = []
-    let stats = { states: 0, transitions: 0 }
-    for (const sc of G.SCHEMAS.filter((x) => ['tpl', 'method', 'proto', 'bare', 'chain'].includes(x.kind) && x.slots.length)) {
-      const r = enumerate(sc.slots.map((s) => ({ name: s, symbols: atoms, free: true })).concat([{ name: 'config', symbols: ['METHODS_ONLY', 'TPL_ONLY', 'FULL'], free: true }]), {})
-      for (const k of Object.keys(r.stats)) stats[k] = (stats[k] || 0) + r.stats[k]
-      for (const l of r.leaves) leaves.push(F.mkLeaf('P', Object.assign({ op: sc.tpl, opkind: sc.kind }, l.pick)))
-    }
-    return { leaves, stats }
-  },
   async oracle (o) {
     const { a, v, res } = o
     if (!a.modified || a.contentUnparsable || a.inputUnparsable) return
     res.nontrivial = a.erasure.hooks.length > 0
+    // the mirror rule only proves "operands == what the wrapped expression uses"; they are the ORIGINAL
+    // operands only if the wrapped expression erases to the input operation
+    const ORIGIN_RULES = new Set(['temp-self-reference', 'temp-nonlinear', 'temp-unused', 'temp-outside-sequence'])
+    for (const p of a.erasure.problems) if (ORIGIN_RULES.has(p.rule)) v('operands-not-the-original-ones', p.rule, p.detail)
+    if (a.mismatches && a.mismatches.length && a.erasure.hooks.length) v('operands-not-the-original-ones', 'erasure-differs-from-input', `the instrumented expression does not erase to the input operation (${a.mismatches[0].why} at ${a.mismatches[0].path}: ${a.mismatches[0].a} vs ${a.mismatches[0].b})`)
     let staticProblems = 0
     for (const p of a.erasure.problems) if (C03_RULES.has(p.rule)) { staticProblems++; v(p.rule, p.sig + (a.cm.plus ? ' cfg-plus-on' : ' cfg-plus-off'), p.detail) }
     // the dynamic oracle would only repeat a statically located defect
